@@ -100,6 +100,8 @@ def run_unit(unit, rlimit=30, vacuity=True):
     with ThreadPoolExecutor(max_workers=2) as ex:
         fut = ex.submit(_run_verus, gen, rlimit)
         vfut = None
+        if vacuity and not any(not f.get('novacuity') for f in vinfo['functions']):
+            vacuity = False   # nothing to twin (pure spec unit / only trait-impl methods)
         if vacuity:
             vgen = os.path.join(BUILD, unit, unit + '_vacuity.rs')
             open(vgen, 'w').write(vtext)
